@@ -16,6 +16,7 @@ from ..run import H, explore_case, jsonable
 from .. import fsmodel
 
 PROP = "C15"
+FRESH_REPLAY = True      # histories may pollute process-global state of the real package
 OPS = ["evaluate_x1", "evaluate_x2", "construct_other_evaluator_cldsc", "construct_default_handler_and_evaluator", "aggregator_log_times",
        "read_metric_keys", "aggregator_plain", "evaluate_x1_save_group_times"]
 X1 = ([1, 1, 1, 0, 2, 2, 0, 0], [1, 1, 1, 1, 1, 1, 0, 2])      # pred, ref: group-1 instance with IoU 1/2, group-2 pieces
